@@ -9,7 +9,7 @@ import time
 
 import numpy as np
 
-from lib import core, tlc, listing, watermark
+from lib import core, tlc, listing, watermark, ltable
 
 
 def table_data(lst):
@@ -370,6 +370,10 @@ def run(tier):
     rep.assumptions = ["watermarking preserves token widths and positions; only digits on lines the reader consumed as rows change",
                        "TOUGH2_MP tables print duplicate rows: the reader keeps the last, and so does the oracle"]
     rep.exhaustive = False
+    try:
+        ltable.observe(rep, quick)
+    except Exception as e:          # (beyond the properties: never a verdict, never a failure of this check)
+        print("OBSERVATION beyond-properties (listingtable): harness stopped: %r" % (e,))
     return rep.finish()
 
 
